@@ -280,12 +280,12 @@ package utils
 //@   after call walkNode#6 set r6 = result
 //@   after call walkNode#8 set r8 = result
 //@   after call walkNode#10 set r10 = result
-//@   at call calculateStaticReturn#1 assert !(n.ReturnBool && isCmp(n.Op))
-//@   at call calculateStaticReturn#2 assert !(n.ReturnBool && isCmp(n.Op))
-//@   at call canJoin#1 assert sameLists(arg0, r4[iter3-1]) && arg0.FixedLabels == r4[iter3-1].FixedLabels
-//@   at call canJoin#2 assert sameLists(arg0, r6[iter6-1]) && arg0.FixedLabels == r6[iter6-1].FixedLabels
-//@   at call canJoin#3 assert sameLists(arg0, r8[iter8-1]) && arg0.FixedLabels == r8[iter8-1].FixedLabels
-//@   at call canJoin#4 assert sameLists(arg0, r10[iter10-1]) && arg0.FixedLabels == r10[iter10-1].FixedLabels
+//@   at call calculateStaticReturn#1 assert [C12] !(n.ReturnBool && isCmp(n.Op))
+//@   at call calculateStaticReturn#2 assert [C12] !(n.ReturnBool && isCmp(n.Op))
+//@   at call canJoin#1 assert [C12] sameLists(arg0, r4[iter3-1]) && arg0.FixedLabels == r4[iter3-1].FixedLabels
+//@   at call canJoin#2 assert [C12] sameLists(arg0, r6[iter6-1]) && arg0.FixedLabels == r6[iter6-1].FixedLabels
+//@   at call canJoin#3 assert [C12] sameLists(arg0, r8[iter8-1]) && arg0.FixedLabels == r8[iter8-1].FixedLabels
+//@   at call canJoin#4 assert [C12] sameLists(arg0, r10[iter10-1]) && arg0.FixedLabels == r10[iter10-1].FixedLabels
 //@   loop 3 assumed invariant forall j int :: iter3 <= j && j < len(r4) ==> wfS(r4[j]) && vmSep(r4[j], n.VectorMatching)
 //@   loop 3 invariant 0 <= iter3 && iter3 <= len(r4) && n == old(n)
 //@   at call append#3 assert n.VectorMatching.On ==> s.FixedLabels && (forall x string :: canHave(s, x) ==> in(n.VectorMatching.MatchingLabels, x))
